@@ -164,7 +164,9 @@ def _op_record(i: int, op: Any) -> Dict[str, Any]:
                 parts.append(f"{k}={v!r}")
         except Exception:
             parts.append(f"{k}=?")
-    exp = getattr(ty, "expected_base_state_types", None)
+    exp = getattr(op, "expected_base_state_types", None)      # what THIS operation accepts
+    if exp is None:
+        exp = getattr(ty, "expected_base_state_types", None)
     return {"id": i, "ty": f"{type(ty).__name__}.{getattr(ty, 'name', '?')}",
             "pd": hashlib.md5("|".join(parts).encode()).hexdigest()[:12],
             "exp": "" if exp is None else ",".join(getattr(t, "__name__", str(t)) for t in exp),
@@ -353,6 +355,9 @@ def _wrap(cls: Any, name: str, entry: str) -> None:
             ret = orig(self, *args, **kwargs)
             if name == "measure" and isinstance(ret, dict):
                 ev["keys"] = [(REG.id_of(k) or 0) for k in ret]
+                ev["ret"] = ",".join(str(int(v)) for v in ret.values())
+            if name == "measure_POVM" and isinstance(ret, tuple) and len(ret) == 2:
+                ev["ret"] = str(int(ret[0])) + ";" + ",".join(f"{REG.id_of(k) or 0}={int(v)}" for k, v in ret[1].items())
             if name in ("resize", "resize_fock"):
                 ev["ret"] = "true" if ret is True else ("false" if ret is False else str(type(ret).__name__))
             return ret
